@@ -47,6 +47,11 @@ CLAIMS = {
          "Responses with 0..6 messages and 0..3 environment changes are delivered under every kind of packetisation (special packages get parsed, rolled back and re-parsed) with hooks registered before or between responses; the event log must show every hook called exactly once per non-informational message / member, with equal contents, in arrival and registration order and before later packages reach the consumer; informational messages and environment changes are never delivered; PacketSize() follows the last PACKSIZE member; a failing callback's error matches the callback error and carries the messages that preceded the failure.",
          "'Messages received so far' = delivered before the failing package; hooks are not registered while a response is in flight; packet level (single goroutine).",
          "DESIGN.md section 3, C11"),
+ "C14": ("fault_enumeration",
+         "exhaustive fault-offset enumeration over rapid-generated responses: transport failure injected after every byte offset x failure kind, through the real reader goroutine; oracle = exact complete-packet prefix of the delivery model, then an error within the bound",
+         "For generated responses (<= 400 bytes, 1..5 packets) the scripted transport starts failing after every byte offset 0..len with EOF, a reset-style and a timeout-style error (read timeout 0 s exhaustively, 1 s sampled); the consumer must get exactly the packages contained in completely received packets, a synthetic final DONE only if the EOM packet arrived completely, and then an error within PacketReadTimeout + 2 s; write-side faults (error / short count at write j) must surface as errors from SendPackage.",
+         "Packages are collected after the failure has been reported on the connection error queue (deterministic); a silent stall is out of scope; the hooked Conn mirrors NewConn's tail.",
+         "DESIGN.md section 3, C14"),
  "C15": ("exploration",
          "rapid model-based operation sequences (rx and tx usage) against a flat byte-slice / packet-layout model + exhaustive enumeration of all short sequences over a tiny packet size",
          "Operation sequences over the exported PacketQueue API are compared step by step with a flat byte model (bytes out = bytes in, in order; short read = ErrNotEnoughBytes; restore re-reads; discard is invisible) and a layout model for writes (Position after every write); all sequences up to length 5/6 (quick) and 7/8 (thorough) over small alphabets are enumerated completely.",
